@@ -58,6 +58,7 @@ type t7xLocal struct {
 // t7xEvent: instruction `in` of fn puts a value into the Timestamp ("ts") / Extensions ("ext") of the
 // TimestampedEntry owned by roots (the leaf / entry objects of this frame that may be meant).
 type t7xEvent struct {
+	callee *ssa.Function // the callee that does it (nil: a store of fn itself)
 	fn     *ssa.Function
 	in     ssa.Instruction
 	field  string
@@ -438,7 +439,7 @@ func (x *t7x) origin(v ssa.Value, f *types.Var, depth int, seen map[ssa.Value]bo
 		if fv == x.sTS || fv == x.sExt || fv == nil {
 			return other()
 		}
-		return hop("field "+fv.Pkg().Name()+"."+fv.Name()+fmt.Sprintf("@%d", fv.Pos()), x.fieldStores[fv])
+		return hop("member "+TypeName(t7xElem(y.X.Type()))+"."+fv.Name(), x.fieldStores[fv])
 	case *ssa.UnOp:
 		if y.Op != token.MUL {
 			return other()
@@ -453,7 +454,7 @@ func (x *t7x) origin(v ssa.Value, f *types.Var, depth int, seen map[ssa.Value]bo
 			if fv == x.sTS || fv == x.sExt || fv == x.fTS || fv == x.fExt || fv == nil {
 				return other()
 			}
-			return hop("field "+fv.Pkg().Name()+"."+fv.Name()+fmt.Sprintf("@%d", fv.Pos()), x.fieldStores[fv])
+			return hop("member "+TypeName(t7xElem(a.X.Type()))+"."+fv.Name(), x.fieldStores[fv])
 		case *ssa.Alloc:
 			var out []t7xOrigin
 			if a.Referrers() != nil {
@@ -616,6 +617,15 @@ func (x *t7x) own(v ssa.Value, out, seen map[ssa.Value]bool, depth int) {
 			return
 		}
 		for _, u := range *y.Referrers() {
+			if fa, ok := u.(*ssa.FieldAddr); ok && fieldOf(fa) == x.fTE && fa.Referrers() != nil {
+				// the entry a leaf variable is given: the same object
+				for _, u2 := range *fa.Referrers() {
+					if st, ok := u2.(*ssa.Store); ok && st.Addr == ssa.Value(fa) {
+						x.own(st.Val, out, seen, depth+1)
+					}
+				}
+				continue
+			}
 			st, ok := u.(*ssa.Store)
 			if !ok {
 				continue
@@ -693,7 +703,7 @@ func (x *t7x) buildEvents(fn *ssa.Function) []*t7xEvent {
 			if ro.param >= len(args) {
 				continue
 			}
-			e := &t7xEvent{fn: fn, in: c, via: FuncName(g), roots: map[ssa.Value]bool{}}
+			e := &t7xEvent{fn: fn, in: c, via: FuncName(g), callee: g, roots: map[ssa.Value]bool{}}
 			sf := x.sTS
 			e.field = "ts"
 			if ro.what == "ext" || ro.what == "sct.ext" {
@@ -764,34 +774,85 @@ func (x *t7x) rolesOf(fn *ssa.Function, evs []*t7xEvent) []t7xRole {
 			default:
 				continue
 			}
+			// a caller relies on "the callee has put the extensions in" as a fact, so for the extensions the
+			// role must hold on EVERY way out that hands the leaf on (for the timestamp "may" is what pairs
+			// a leaf with an SCT, the cautious direction)
+			same := func(g *t7xEvent) bool {
+				for _, og := range g.orig {
+					switch {
+					case o.kind == "param" && og.kind == "param" && og.param == o.param:
+					case o.kind == "sct" && og.kind == "sct" && og.s == o.s:
+					default:
+						return false
+					}
+				}
+				return len(g.orig) > 0
+			}
+			must := func(at ssa.Instruction) bool {
+				if e.field != "ext" {
+					return true
+				}
+				ok, _ := x.extHolds(fn, evs, e, same, nil, at)
+				return ok
+			}
 			if e.inside != nil {
-				ro.locus, ro.local = "local", e.inside
-				add(ro)
+				if must(e.in) {
+					ro.locus, ro.local = "local", e.inside
+					add(ro)
+				}
 				continue
 			}
 			for _, root := range t7xSorted(x, e.roots) {
 				placed := false
 				if p, ok := root.(*ssa.Parameter); ok && p.Parent() == fn {
-					r2 := ro
-					r2.locus, r2.idx = "param", paramIndex(p)
-					add(r2)
+					all := true
+					for _, ret := range rets {
+						all = all && must(ret)
+					}
+					if all {
+						r2 := ro
+						r2.locus, r2.idx = "param", paramIndex(p)
+						add(r2)
+					}
 					placed = true
 				}
-				for _, ret := range rets {
-					for k, res := range ret.Results {
+				for k := 0; k < fn.Signature.Results().Len(); k++ {
+					carries, all := false, true
+					for _, ret := range rets {
+						if k >= len(ret.Results) {
+							continue
+						}
+						res := ret.Results[k]
 						if !x.is(res.Type(), x.tLeaf) && !x.is(res.Type(), x.tTE) {
 							continue
 						}
 						if x.owner(res)[root] {
+							carries = true
+							all = all && must(ret)
+						}
+					}
+					if carries {
+						placed = true
+						if all {
 							r2 := ro
 							r2.locus, r2.idx = "ret", k
 							add(r2)
-							placed = true
 						}
 					}
 				}
 				if !placed {
 					if _, isAlloc := root.(*ssa.Alloc); isAlloc && len(e.roots) == 1 {
+						all := true
+						if e.field == "ext" {
+							for _, ex := range x.frame(fn, x.starts(e.roots), 0) {
+								if len(ex.sink)+len(ex.unknown) > 0 {
+									all = all && must(ex.in)
+								}
+							}
+						}
+						if !all {
+							continue
+						}
 						r2 := ro
 						r2.locus, r2.local = "local", &t7xLocal{fn: fn, root: root}
 						// one local per (function, root): reuse the pointer so that keys are stable
@@ -1266,6 +1327,9 @@ func (x *t7x) decide(fn *ssa.Function) (int, int) {
 					}
 				}
 				ok, why := x.holds(fn, e, o.s, ex.in)
+				if !ok && e.callee != nil {
+					why += x.calleeHint(e.callee)
+				}
 				und := !ok && len(ex.sink) == 0
 				if ok {
 					note(key, ex.in, true, false, fmt.Sprintf("%s reaches %s with %s.Extensions in TimestampedEntry.Extensions on every path (%s)", what, fate, sTerm, why))
@@ -1319,10 +1383,31 @@ func (x *t7x) starts(roots map[ssa.Value]bool) []t7xState {
 
 // holds: at `at`, the Extensions of the entry owned by e.roots hold s.Extensions on every path.
 func (x *t7x) holds(fn *ssa.Function, e *t7xEvent, s ssa.Value, at ssa.Instruction) (bool, string) {
+	if s == nil {
+		return false, "the SCT is read inside a callee, its extensions are not available here"
+	}
+	var froms []ssa.Instruction
+	if d := t7xDef(s); d != nil && d.Parent() == fn {
+		froms = append(froms, d)
+	}
+	good := func(o *t7xEvent) bool {
+		for _, og := range o.orig {
+			if og.kind != "sct" || !x.sameSCT(og.s, s) {
+				return false
+			}
+		}
+		return len(o.orig) > 0
+	}
+	return x.extHolds(fn, x.events[fn], e, good, froms, at)
+}
+
+// extHolds: on every way to `at`, the last thing put into the Extensions of the entry that e is about is a value
+// accepted by good.  Ways start at the entry of fn, at the definitions of the owning objects, and at froms.
+func (x *t7x) extHolds(fn *ssa.Function, evs []*t7xEvent, e *t7xEvent, good func(*t7xEvent) bool, froms []ssa.Instruction, at ssa.Instruction) (bool, string) {
 	gates := map[ssa.Instruction]bool{}
 	var bads []*t7xEvent
 	var goodAt []string
-	for _, o := range x.events[fn] {
+	for _, o := range evs {
 		if o.field != "ext" {
 			continue
 		}
@@ -1333,21 +1418,12 @@ func (x *t7x) holds(fn *ssa.Function, e *t7xEvent, s ssa.Value, at ssa.Instructi
 		} else if o.inside != nil || !t7xMeet(o.roots, e.roots) {
 			continue
 		}
-		good := len(o.orig) > 0
-		for _, og := range o.orig {
-			if og.kind != "sct" || !x.sameSCT(og.s, s) {
-				good = false
-			}
-		}
-		if good {
+		if good(o) {
 			gates[o.in] = true
 			goodAt = append(goodAt, x.r.Where(o.in))
 		} else {
 			bads = append(bads, o)
 		}
-	}
-	if s == nil {
-		return false, "the SCT is read inside a callee, its extensions are not available here"
 	}
 	if len(gates) == 0 {
 		if len(bads) > 0 {
@@ -1361,11 +1437,19 @@ func (x *t7x) holds(fn *ssa.Function, e *t7xEvent, s ssa.Value, at ssa.Instructi
 		}
 		return false, "nothing in " + FuncName(fn) + " puts anything into the Extensions of that leaf"
 	}
-	froms := []ssa.Instruction{nil}
-	if d := t7xDef(s); d != nil && d.Parent() == fn {
-		froms = append(froms, d)
+	// (the object that holds the extensions is the entry: where the entry itself is known, what was put into it
+	// before it was placed into a leaf counts, so only its own creation starts a way; otherwise the leaf's does)
+	froms = append([]ssa.Instruction{nil}, froms...)
+	entryKnown := false
+	for root := range e.roots {
+		if _, isAlloc := root.(*ssa.Alloc); isAlloc && x.is(root.Type(), x.tTE) {
+			entryKnown = true
+		}
 	}
 	for root := range e.roots {
+		if entryKnown && !x.is(root.Type(), x.tTE) {
+			continue
+		}
 		if d := t7xDef(root); d != nil && d.Parent() == fn {
 			froms = append(froms, d)
 		}
@@ -1376,7 +1460,7 @@ func (x *t7x) holds(fn *ssa.Function, e *t7xEvent, s ssa.Value, at ssa.Instructi
 			if f != nil {
 				from = x.r.Where(f)
 			}
-			return false, fmt.Sprintf("a path from %s reaches %s without passing the store of the SCT's extensions at %s", from, x.r.Where(at), strings.Join(goodAt, ", "))
+			return false, fmt.Sprintf("a path from %s reaches %s without passing the store of the SCT's extensions at %s", from, x.r.Where(at), strings.Join(t7xUniq(goodAt), ", "))
 		}
 	}
 	for _, b := range bads {
@@ -1388,5 +1472,28 @@ func (x *t7x) holds(fn *ssa.Function, e *t7xEvent, s ssa.Value, at ssa.Instructi
 			return false, fmt.Sprintf("the extensions are overwritten with %s at %s on a path to %s", strings.Join(ts, " | "), x.r.Where(b.in), x.r.Where(at))
 		}
 	}
-	return true, "stored at " + strings.Join(goodAt, ", ")
+	return true, "stored at " + strings.Join(t7xUniq(goodAt), ", ")
+}
+
+// calleeHint: what the function that built the leaf does about the extensions (for the text of a violation).
+func (x *t7x) calleeHint(g *ssa.Function) string {
+	for _, ro := range x.roles[g] {
+		if ro.what == "ext" || ro.what == "sct.ext" {
+			return ""
+		}
+	}
+	var at []string
+	for _, o := range x.events[g] {
+		if o.field == "ext" {
+			var ts []string
+			for _, og := range o.orig {
+				ts = append(ts, og.term)
+			}
+			at = append(at, strings.Join(ts, " | ")+" at "+x.r.Where(o.in))
+		}
+	}
+	if len(at) == 0 {
+		return "; " + FuncName(g) + " does not put them in either"
+	}
+	return "; " + FuncName(g) + " puts " + strings.Join(at, ", ") + " into them, but not the SCT's on every way out"
 }
